@@ -139,6 +139,61 @@ class Color(enum.Enum):
     BLUE = "b"
 
 
+def enum_roundtrips(ctx: Ctx, eng: morph.Engine, n: int):
+    """generated Enum classes under the default provider (exact value): member values of every kind the language allows -
+    numbers, strs, None, tuples, and UNHASHABLE values (lists, dicts, sets, tuples holding a list) - bare and inside
+    Optional / list / dict / a model field; every member must survive load(dump(x))"""
+    import dataclasses
+    from typing import Optional
+    rng = ctx.rng
+    hashable_vals = [0, 1, 2, -1, 10 ** 20, "a", "b", "", "1", 1.5, -0.5, None, (1, 2), (), ("a", (1,)), b"x", frozenset({1}),
+                     2 + 0j, "é"]
+    unhashable_vals = [[], [1, 2], [0, 10], {"k": 1}, {}, {1, 2}, ([1],), ("a", {"b": 2}), [[1], [2]], bytearray(b"ab")]
+    for i in range(n):
+        k = rng.randint(1, 5)
+        shape = rng.choice(["hashable", "hashable", "mixed", "unhashable"])
+        pool = {"hashable": hashable_vals, "mixed": hashable_vals + unhashable_vals * 2, "unhashable": unhashable_vals}[shape]
+        vals = []
+        for v in rng.sample(pool, min(k, len(pool))):
+            if not any(_same_enum_value(v, w) for w in vals):
+                vals.append(v)
+        base = rng.choice(["Enum", "Enum", "Enum", "int", "str"])
+        try:
+            if base == "int":
+                E = enum.IntEnum(f"GE{i}", {f"M{j}": j * 3 - 2 for j in range(k)})
+            elif base == "str":
+                E = enum.Enum(f"GE{i}", {f"M{j}": f"v{j}" for j in range(k)}, type=str)
+            else:
+                E = enum.Enum(f"GE{i}", {f"M{j}": v for j, v in enumerate(vals)})
+        except Exception:  # noqa: BLE001
+            continue
+        E.__module__ = __name__
+        wrapper = rng.choice(["bare", "bare", "optional", "list", "dict", "field"])
+        if wrapper == "field":
+            M = dataclasses.make_dataclass(f"GEM{i}", [("e", E), ("n", int, dataclasses.field(default=0))])
+            M.__module__ = __name__
+        for member in E:
+            hint, x = {"bare": (E, member), "optional": (Optional[E], member), "list": (list[E], [member, member]),
+                       "dict": (dict[str, E], {"k": member})}.get(wrapper) or (M, M(e=member))
+            sp = morph.Spec(hint=hint, ty=["enum-probe"], gen=None, kind="enum")
+            unh = False
+            try:
+                hash(member.value)
+            except TypeError:
+                unh = True
+            ctx.note_case({"enum": [repr(m.value)[:30] for m in E], "x": repr(x)[:60], "w": wrapper}, nontrivial=True,
+                          kind=f"roundtrip:enum:{base}:{'unhashable-value' if unh else 'hashable-value'}")
+            for key in morph.CONFIGS:
+                roundtrip(ctx, eng, sp, x, key, via_json=False)
+
+
+def _same_enum_value(a, b) -> bool:
+    try:
+        return bool(a == b)
+    except Exception:  # noqa: BLE001
+        return False
+
+
 def literal_probes():
     """Literal with bytes / enum members (outside the Lean value universe: oracle only)"""
     return [
@@ -281,12 +336,14 @@ def run(ctx: Ctx):
                 roundtrip(ctx, eng, sp, v, key, via_json=False)
     timedelta_sweep(ctx, eng, ctx.budget(3000, 200000))
     name_mapping_roundtrips(ctx, ctx.budget(150, 3000))
+    enum_roundtrips(ctx, eng, ctx.budget(60, 1200))
 
 
 def search(ctx: Ctx):
     eng = morph.Engine(ctx)
     eng.drv = None
     optional_models(ctx, eng, 300)
+    enum_roundtrips(ctx, eng, 600)
     for spec in eng.gen_specs(2000, 4):
         if eng.real.dump("DISABLE", True, spec.hint, None).get("r") == "no-dumper":
             continue
